@@ -183,6 +183,37 @@ static void sec_line(Ctx& c, uint64_t) {
   }
 }
 
+// ---- arc-length periodicity law (no oracle needed): on the auxiliary sphere latitude and azimuth depend on the arc
+// length only through sin/cos(sigma), so lat2 and azi2 at a12 and at a12 + 360 N are the same numbers.  The library
+// reduces the arc exactly in degrees, so for exactly representable a12 + 360 N the results agree to round-off for ANY
+// number of circuits (this is what "arc length of any number of circuits" rests on); s12 advances by N circuits' length.
+template <class L> static void periodic(Ctx& c, const L& l, const char* solver, const Case& k, double a12, double N, double tolm) {
+  double b = a12 + 360 * N;
+  if ((q128)b != (q128)a12 + (q128)360 * N) return;              // not exactly representable
+  double la, lo, az, s, m, M1, M2, S, lb, lob, azb, sb;
+  l.GenPosition(true, a12, L::ALL, la, lo, az, s, m, M1, M2, S);
+  l.GenPosition(true, b, L::ALL, lb, lob, azb, sb, m, M1, M2, S);
+  c.event("arc-periodicity pairs judged");
+  double e1 = std::fabs(la - lb) * (M_PI / 180) * k.e.a * std::max(1.0, 1 - k.e.f), e2 = std::fabs(std::remainder(az - azb, 360.0)) * (M_PI / 180) * k.e.a * std::cos(la * M_PI / 180);
+  double e = std::max(e1, e2);
+  c.obs(std::string("arc-periodicity lat2/azi2 discrepancy / tolerance [") + solver + "]", e / tolm, J().f("f", k.e.f).f("lat1", k.lat1).f("azi1", k.azi1).f("a12", a12).f("N", N));
+  if (e > tolm) c.viol(std::string("law:C01/") + solver + "/arc-periodicity", k.cls, J().f("a", k.e.a).f("f", k.e.f).f("lat1", k.lat1).f("lon1", k.lon1).f("azi1", k.azi1).f("a12", a12).f("N", N)
+                       .f("lat2", la).f("lat2_shifted", lb).f("azi2", az).f("azi2_shifted", azb).f("err_m", e).f("tol_m", tolm));
+}
+static void sec_periodic(Ctx& c, uint64_t) {
+  Case k = gen(c.rng); k.cls = "arc-periodicity/" + k.e.bucket;
+  gh::Solvers& S = gh::solvers(k.e.a, k.e.f, k.e.series_ok);
+  c.count(k.cls, vh::hmix(vh::hmix(vh::hmix(17, k.e.f), k.lat1), k.azi1));
+  double a12 = c.rng.coin(0.3) ? 90.0 * c.rng.range(-8, 8) : std::ldexp(std::floor(c.rng.uniform(-360, 360) * 1024), -10);   // few mantissa bits
+  double N = std::floor(c.rng.logu(1, 1e6)) * c.rng.sign();
+  // tolerance: the documented accuracy for ONE circuit (the shift itself must cost nothing)
+  GeodesicLineExact le = S.exact->Line(k.lat1, k.lon1, k.azi1);
+  periodic(c, le, "exact-line", k, a12, N, K_EXACT * S.tol_exact);
+  GeodesicLine ld = S.delegating->Line(k.lat1, k.lon1, k.azi1);
+  periodic(c, ld, "exact-delegating-line", k, a12, N, K_EXACT * S.tol_exact);
+  if (k.e.series_ok) { GeodesicLine ls = S.series->Line(k.lat1, k.lon1, k.azi1); periodic(c, ls, "series-line", k, a12, N, K_SERIES * S.tol_series); }
+}
+
 // ---- oracle self-validation: quadrature formulation vs ODE formulation (never a verdict on the library)
 static void sec_selftest(Ctx& c, uint64_t) {
   vh::Rng& r = c.rng;
@@ -226,5 +257,6 @@ int main(int argc, char** argv) {
   S.push_back({"directed", 28800, 28800, false, sec_directed, 60});
   S.push_back({"random", 40000, 3000000, true, sec_random, 60});
   S.push_back({"line", 5000, 300000, true, sec_line, 60});
+  S.push_back({"periodic", 20000, 1000000, true, sec_periodic, 60});
   return vh::run_sections(argc, argv, S);
 }
